@@ -6,5 +6,7 @@ CONSTANTS
   Monotone = FALSE
   Ticks = FALSE
   IdleRec = FALSE
+  Cap = 1
+  Eager = FALSE
 INVARIANT AtEnd
 CHECK_DEADLOCK FALSE
